@@ -49,6 +49,10 @@ pub struct Case {
     /// xy="#z@loc", instead of by coordinates
     #[serde(default)]
     pub anchored: u8,
+    /// bit0: the class list is given through a variable (class="$cls"); bit1: (content carrier) the content is character
+    /// data, a CDATA section and character data again
+    #[serde(default)]
+    pub mix: u8,
 }
 
 const VARS: [(&str, &str); 3] = [("who", "World"), ("n", "42"), ("sym", "a&b<c>")];
@@ -84,13 +88,14 @@ fn fam_cases(_t: Tier) -> BoxedStrategy<Case> {
             any::<bool>(),
             any::<u8>(),
             0u8..24,
+            0u8..8,
         ),
     )
-        .prop_map(|((shape, g, carrier, pieces), (loc, side, vertical, pre, offset, delta, d, lsp, text_style, extras, anchored))| {
+        .prop_map(|((shape, g, carrier, pieces), (loc, side, vertical, pre, offset, delta, d, lsp, text_style, extras, anchored, mix))| {
             let anchored = if shape % 9 == 8 && loc.is_some() && anchored <= 9 { anchored } else { 0 };
             // the svgdx-only pseudo elements <point> and <box> take text through the attribute only (content form is not documented for them)
             let carrier = if matches!(shape % 9, 6 | 7) { 0 } else { carrier };
-            Case { shape, g, carrier, pieces, loc, side, vertical, pre, offset, delta, d, lsp, text_style, extras, anchored }
+            Case { shape, g, carrier, pieces, loc, side, vertical, pre, offset, delta, d, lsp, text_style, extras, anchored, mix: if mix < 4 { mix } else { 0 } }
         })
         .boxed()
 }
@@ -110,6 +115,20 @@ fn author_text(c: &Case) -> String {
         }
     }
     s
+}
+
+/// the author's text cut after its first and second piece, where both outer parts hold more than white space (white space
+/// alone next to a CDATA section is formatting) and the middle part can stand in a CDATA section
+fn mixed_split(c: &Case) -> Option<(String, String, String)> {
+    if c.pieces.len() < 3 {
+        return None;
+    }
+    let part = |ps: &[Piece]| author_text(&Case { pieces: ps.to_vec(), ..c.clone() });
+    let (a, b, z) = (part(&c.pieces[..1]), part(&c.pieces[1..2]), part(&c.pieces[2..]));
+    if a.trim().is_empty() || z.trim().is_empty() || b.contains("]]>") || (b.ends_with("]]") && z.starts_with('>')) || (b.ends_with(']') && z.starts_with("]>")) {
+        return None;
+    }
+    Some((a, b, z))
 }
 
 fn expected_text(c: &Case) -> String {
@@ -198,7 +217,10 @@ pub fn case_xml(c: &Case) -> String {
     if c.pre {
         classes.push("d-text-pre");
     }
-    if !classes.is_empty() {
+    let class_var = c.mix & 1 != 0 && !classes.is_empty();
+    if class_var {
+        e.set("class", "$cls");
+    } else if !classes.is_empty() {
         e.set("class", classes.join(" "));
     }
     if let Some((l, off)) = &c.loc {
@@ -252,10 +274,20 @@ pub fn case_xml(c: &Case) -> String {
             }
             e.kids.push(X::Raw(raw));
         }
+        // character data, a CDATA section, character data: all of it is the content
+        1 if c.mix & 2 != 0 && mixed_split(c).is_some() => {
+            let (a, b, z) = mixed_split(c).unwrap();
+            e.kids.push(X::Text(a));
+            e.kids.push(X::Raw(format!("<![CDATA[{b}]]>")));
+            e.kids.push(X::Text(z));
+        }
         1 => e.kids.push(X::Text(t)),
         _ => e.kids.push(X::Raw(format!("<![CDATA[{}]]>", t.replace("]]>", "]] >")))),
     }
-    let vars = XEl::new("var").a(VARS[0].0, VARS[0].1).a(VARS[1].0, VARS[1].1).a(VARS[2].0, VARS[2].1);
+    let mut vars = XEl::new("var").a(VARS[0].0, VARS[0].1).a(VARS[1].0, VARS[1].1).a(VARS[2].0, VARS[2].1);
+    if class_var {
+        vars.set("cls", classes.join(" "));
+    }
     if c.shape % 9 == 8 && c.anchored >= 1 {
         // the anchor rect lies so that its chosen location is the point (x, y)
         let l = gen::LOCS[(c.anchored as usize - 1) % 9];
